@@ -8,9 +8,12 @@ SORTED_T = 'forall(i, 0, len(knot_vector), forall(j, i, len(knot_vector), knot_v
 
 SPAN_REQ = ['degree >= 0', 'num_ctrlpts >= degree + 1', 'len(knot_vector) == num_ctrlpts + degree + 1', SORTED_T,
             'knot_vector[degree] <= knot', 'knot <= knot_vector[num_ctrlpts]',
-            'knot_vector[num_ctrlpts - 1] < knot_vector[num_ctrlpts]']
+            # the domain has positive length (otherwise there is no non-empty knot interval to return); the domain-end knot
+            # may be repeated to its left (unclamped vectors)
+            'knot_vector[degree] < knot_vector[num_ctrlpts]']
+# the unique non-empty half-open interval containing the parameter; at the domain end the last non-empty one
 SPAN_ENS = ['degree <= result', 'result <= num_ctrlpts - 1', 'knot_vector[result] <= knot',
-            'knot < knot_vector[result + 1] or (knot == knot_vector[num_ctrlpts] and result == num_ctrlpts - 1)',
+            'knot < knot_vector[result + 1] or (knot == knot_vector[num_ctrlpts] and knot_vector[result + 1] == knot_vector[num_ctrlpts])',
             'knot_vector[result] < knot_vector[result + 1]']
 
 CONTRACTS = {
@@ -22,7 +25,11 @@ CONTRACTS = {
         requires=SPAN_REQ,
         ensures=SPAN_ENS,
         loops={0: dict(inv=['degree + 1 <= span', 'span <= num_ctrlpts', 'forall(i, degree, span, knot_vector[i] <= knot)'],
-                       decreases='num_ctrlpts - span')},
+                       decreases='num_ctrlpts - span'),
+               # walking back over empty intervals (only ever entered at the domain end)
+               1: dict(inv=['degree + 1 <= span', 'span <= num_ctrlpts', 'knot_vector[span - 1] <= knot',
+                            'knot < knot_vector[span] or (knot == knot_vector[num_ctrlpts] and knot_vector[span] == knot_vector[num_ctrlpts])'],
+                       decreases='span')},
     ),
     'helpers.find_span_binsearch': dict(
         props=['C01', 'C02', 'C03', 'C17'],
@@ -32,7 +39,10 @@ CONTRACTS = {
         # tol_separated at the domain end: the code identifies every u within 1e-5 of U[n] with U[n]
         requires=SPAN_REQ + ['degree >= 1', "knot == knot_vector[num_ctrlpts] or knot_vector[num_ctrlpts] - knot > '1/100000'"],
         ensures=SPAN_ENS,
-        loops={0: dict(inv=['degree <= low', 'low < high', 'high <= num_ctrlpts', 'low <= mid', 'mid <= high',
+        loops={0: dict(inv=['degree <= n', 'n <= num_ctrlpts - 1', 'knot == knot_vector[num_ctrlpts]',
+                            'knot_vector[n + 1] == knot_vector[num_ctrlpts]'],
+                       decreases='n'),
+               1: dict(inv=['degree <= low', 'low < high', 'high <= num_ctrlpts', 'low <= mid', 'mid <= high',
                             'knot_vector[low] <= knot', 'knot < knot_vector[high]',
                             'implies(mid == low, high == low + 1)'],
                        decreases='2 * (high - low) + (1 if mid == high else 0)')},
